@@ -20,7 +20,7 @@ RULE = ("Hypothesis: DAGs p<=6 (binary and signed weights) and small DAGs relabe
         "query of each forest equals the FINAL synthetic parent columns in ascending order and every produced value lies in the "
         "support the stand-in assigns to that query (Markov factorisation); bootstrap index vectors of two source nodes of one "
         "environment differ (n >= 20); same random_state => identical output whatever happened in between; documented TypeError / "
-        "ValueError for each invalid argument. Non-trivial = >= 2 sources, a node with >= 2 parents, seeded call.")
+        "ValueError for each invalid argument. Non-trivial = >= 2 sources, a node with >= 2 parents, seeded call. Also: verbose construction, 2^15+1 training rows with 1030 synthetic rows, independence of the neighbour rank picked by different forests (>= 30 rows).")
 ASSUMPTIONS = [
     "the R package drf is replaced by a deterministic 3-nearest-neighbour stand-in behind the rpy2 interface; the statistical quality of a real forest is out of scope by the property's own wording",
     "different seeds / unseeded calls giving different samples is recorded, not demanded",
